@@ -68,6 +68,11 @@ def configs(tier):
             out.append(mk(4, es, WPATS[4][0], SPATS[4][0]))
         out.append(mk(4, sel[0], WPATS[4][1], SPATS[4][0]))
         out.append(mk(4, sel[0], WPATS[4][0], SPATS[4][1]))
+        # mixed weights on trees (a heavy variable inside a block that must split). The 4-cycle K2,2 with mixed weights is NOT
+        # registered: its candidates live on over-approximated cost-loop paths that nlsat does not decide in 30 s (inconclusive)
+        for es in [[(0, 1), (1, 2), (2, 3)], [(0, 1), (0, 2), (0, 3)], [(0, 3), (1, 3), (2, 3)], [(0, 1), (1, 2), (1, 3)], [(0, 2), (1, 2), (2, 3)], [(0, 1), (0, 2), (2, 3)]]:
+            for wp in [(10, 1, 1, 2), (1e10, 1, 1, 1), (1, 1, 1e10, 1), (2, 1, 10, 1)]:
+                out.append(mk(4, es, wp, SPATS[4][0]))
         # trees on 4 vertices with mixed scales (blocks of >= 3 variables whose multipliers need the scale factors)
         trees = [[(0, 1), (1, 2), (2, 3)], [(0, 1), (0, 2), (0, 3)], [(0, 3), (1, 3), (2, 3)], [(0, 1), (1, 2), (1, 3)], [(0, 2), (1, 2), (2, 3)], [(0, 1), (0, 2), (2, 3)]]
         for es in trees:
